@@ -272,47 +272,40 @@ def apply_unary(name, J, aux=None):
 # spherical Bessel functions j0, j1, j2: derivative towers valid at and near zero
 
 def sph_tower(nu, order):
-    """list of callables d_k(x) for the spherical Bessel function j_nu"""
-    import sympy as sp
+    """list of callables d_k(x) for the spherical Bessel function j_nu: termwise derivatives of the Maclaurin series
+    j_nu(x) = sum_m (-1)^m x^(2m+nu) / (2^m m! (2nu+2m+1)!!)   (entire function; 260 terms at 130 digits cover |x| <= 60)"""
     key = ('sph', nu, order)
     if key in _towers:
         return _towers[key]
-    x = sp.Symbol('x')
-    closed = [sp.sin(x) / x, (sp.sin(x) - x * sp.cos(x)) / x ** 2, ((3 - x ** 2) * sp.sin(x) - 3 * x * sp.cos(x)) / x ** 3][nu]
-    ds = [closed]
-    for k in range(order):
-        ds.append(sp.diff(ds[-1], x))
-    fs = [sp.lambdify(x, sp.simplify(d), 'mpmath') for d in ds]
+    old = mp.dps
+    mp.dps = 130
+    coef = []
+    for m in range(0, 260):
+        coef.append(mpf(-1) ** m / (mpf(2) ** m * mpmath.factorial(m) * mpmath.fac2(2 * nu + 2 * m + 1)))
+    mp.dps = old
 
     def series(k):
         def f(t):
-            # j_nu(x) = sum_m (-1)^m x^(2m+nu) / (2^m m! (2nu+2m+1)!!), differentiated k times termwise
-            tot = mpf(0)
-            for m in range(0, 60):
-                p = 2 * m + nu
-                if p < k:
-                    continue
-                c = mpf(-1) ** m / (mpf(2) ** m * mpmath.factorial(m) * mpmath.fac2(2 * nu + 2 * m + 1))
-                ff = mpf(1)
-                for q in range(k):
-                    ff *= (p - q)
-                tot += c * ff * (t ** (p - k) if p - k > 0 else mpf(1))
-            return tot
-        return f
-
-    def pick(k):
-        s = series(k)
-
-        def f(t):
-            if abs(t) < 0.5:
-                return s(t)
             old = mp.dps
-            mp.dps = 90
+            mp.dps = 130
             try:
-                return +fs[k](mpf(t))
+                t = mpf(t)
+                tot = mpf(0)
+                for m in range(0, 260):
+                    p = 2 * m + nu
+                    if p < k:
+                        continue
+                    ff = 1
+                    for q in range(k):
+                        ff *= (p - q)
+                    term = coef[m] * ff * (t ** (p - k) if p - k > 0 else 1)
+                    tot += term
+                    if m > 20 and term != 0 and abs(term) < mpf(10) ** -125 * (abs(tot) + mpf(10) ** -300):
+                        break
+                return +tot
             finally:
                 mp.dps = old
         return f
-    res = [pick(k) for k in range(order + 1)]
+    res = [series(k) for k in range(order + 1)]
     _towers[key] = res
     return res
